@@ -77,7 +77,10 @@ static void add_objects(const Req* r) {
     if (!strcmp(k, "body")) {
       new_body(nm);
     } else if (!strcmp(k, "joint")) {
-      mjsJoint* j = mjs_addJoint(hb[i % 2], NULL); j->type = mjJNT_HINGE; j->axis[i % 3] = 1; setname(j->element, nm);
+      // at most 6 dofs per body: a fresh unnamed carrier body for every 6 requested hinge joints
+      static mjsBody* carrier;
+      if (i % 6 == 0) carrier = new_body("");
+      mjsJoint* j = mjs_addJoint(carrier, NULL); j->type = mjJNT_HINGE; j->axis[i % 3] = 1; setname(j->element, nm);
     } else if (!strcmp(k, "geom")) {
       mjsGeom* g = mjs_addGeom(hb[i % 2], NULL); g->type = mjGEOM_SPHERE; g->size[0] = 0.01; setname(g->element, nm);
     } else if (!strcmp(k, "site")) {
